@@ -12,7 +12,7 @@ import vlib
 QUICK = [
     ("MC_Ints.tla", "MC_Ints_quick.cfg"),
     ("MC_Cond.tla", "MC_Cond_single.cfg"), ("MC_Cond.tla", "MC_Cond_struct.cfg"), ("MC_Cond.tla", "MC_Cond_twobyte.cfg"),
-    ("MC_Cond.tla", "MC_Cond_cross.cfg"), ("MC_Cond.tla", "MC_Cond_pairq.cfg"), ("MC_Cond.tla", "MC_Cond_big.cfg"),
+    ("MC_Cond.tla", "MC_Cond_cross.cfg"), ("MC_Cond.tla", "MC_Cond_pairq.cfg"), ("MC_Cond.tla", "MC_Cond_big.cfg"), ("MC_Cond.tla", "MC_Cond_locks3.cfg"),
     ("MC_Rel.tla", "MC_Rel_strict.cfg"), ("MC_Rel.tla", "MC_Rel_perm.cfg"),
     ("MC_TimeLocks.tla", "MC_TimeLocks.cfg"), ("MC_GenShape.tla", "MC_GenShape.cfg"), ("MC_Bundle.tla", "MC_Bundle.cfg"),
     ("MC_AggSig.tla", "MC_AggSig.cfg"),
